@@ -57,8 +57,11 @@ fn mapfile(cfg: u32) -> String {
     }
     s
 }
-/// The flavour as determined by the configuration (NOT read off the output).
-fn flavour(cfg: u32) -> &'static str { if cfg >= 2 { "PredecGtZero" } else { "PredecNeZero" } }
+/// The flavour as determined by the configuration (NOT read off the output): which counting-jump
+/// intrinsics the format has; the model computes the flavour from it with the generated preference table.
+fn flavour(cfg: u32) -> &'static str {
+    match cfg { 0 => "(cfg_flavour false false)", 1 => "(cfg_flavour true false)", 2 => "(cfg_flavour false true)", _ => "(cfg_flavour true true)" }
+}
 
 // ---------------------------------------------------------------------------------------------
 // valuations and observations
